@@ -219,6 +219,10 @@ PROPS["C08"] = dict(
         K("c08", "c08_separates_en_passant_black", kind="bounded", bound="one concrete placement (pawns d4 e4 f4), symbolic rights and keys",
           desc="same, Black to move", functions=H),
         K("c08", "c08_separates_side_to_move", desc="side to move separated unless the two turn keys coincide", functions=H),
+        dict(name="c08_native_placement_exhaustive", backend="native", kind="bounded", tier="quick", crate=CORE, file="c08.rs",
+             test="c08_native_placement_exhaustive", bound="native execution (not symbolic): key tables from 3 seeds x 3 component settings x every "
+             "(piece, square) and every pair of placements on different squares, plus the initial position", desc="the REAL hash equals components ^ "
+             "XOR of K[square][piece] over the pieces", functions=["ZobristHasher::hash", "ZobristHasher::with"], timeout=1800),
         K("c08", "c08_with_fills_every_cell", desc="ZobristHasher::with draws every one of the 1038 cells from its own "
           "next_u64 call (counting RNG: all cells distinct and non-zero, exactly 1038 draws)", functions=["ZobristHasher::with"]),
     ],
@@ -227,8 +231,8 @@ PROPS["C08"] = dict(
         "of their symmetric difference, a non-empty set of distinct table cells each drawn independently by with(rng); that "
         "such a XOR of random keys is non-zero with probability 1 - 2^-64 is arithmetic, not code",
         "the placement formula for an ARBITRARY base position is not proved (CBMC exhausted 12 GB with symbolic and with constant "
-        "key tables); it is checked for the base positions {empty, initial position} plus one or two symbolic pieces (bounded "
-        "stand-ins, listed separately); the twelve per-piece loops of hash are independent of each other by inspection",
+        "key tables); it is covered by a native exhaustive stand-in (real hash; every one- and two-piece placement and the initial "
+        "position, key tables from three seeds), listed as bounded; the twelve per-piece loops of hash are independent of each other by inspection",
     ],
     technique="Kani/CBMC: structural contract of ZobristHasher::hash (XOR-homomorphism over fully symbolic key tables)",
     level_text="Proof of structure: for fully symbolic key tables the hash is shown to be the XOR of one table cell per piece, "
@@ -330,9 +334,9 @@ PROPS["C01"] = dict(
         K("c01", "c01_k1_pawn_moves_complete", kind="bounded", bound="one own pawn; every other piece arbitrary", tier="quick", desc="K1 completeness: every "
           "move value the rules allow is generated", functions=["MoveGenerator::compute_pawn_moves"], timeout=5400, heavy=True, mem_gb=30,
           unwindset_rules=[("compute_pawn_moves", r"iter_ones\(\)", 2), ("compute_pawn_moves", r"PROMOTION_TYPES", 5), ("compute_pawn_moves", r"OFFSETS", 3)]),
-        K("c01", "c01_k1_pawn_moves_sound_8", kind="bounded", bound="<= 8 own pawns (the maximum); every other piece arbitrary", tier="thorough", desc="K1 soundness "
-          "with up to eight pawns", functions=["MoveGenerator::compute_pawn_moves"], timeout=7200, heavy=True, mem_gb=30,
-          unwindset_rules=[("compute_pawn_moves", r"iter_ones\(\)", 9), ("compute_pawn_moves", r"PROMOTION_TYPES", 5), ("compute_pawn_moves", r"OFFSETS", 3)]),
+        K("c01", "c01_k1_pawn_moves_sound_3", kind="bounded", bound="<= 3 own pawns; every other piece arbitrary", tier="thorough", desc="K1 soundness "
+          "with up to three pawns (eight pawns did not finish in two hours)", functions=["MoveGenerator::compute_pawn_moves"], timeout=7200, heavy=True, mem_gb=30,
+          unwindset_rules=[("compute_pawn_moves", r"iter_ones\(\)", 4), ("compute_pawn_moves", r"PROMOTION_TYPES", 5), ("compute_pawn_moves", r"OFFSETS", 3)]),
         K("c01", "c01_k1_pawn_moves_complete_3", kind="bounded", bound="<= 3 own pawns; every other piece arbitrary", tier="thorough", desc="K1 completeness with up "
           "to three pawns", functions=["MoveGenerator::compute_pawn_moves"], timeout=7200, heavy=True, mem_gb=30,
           unwindset_rules=[("compute_pawn_moves", r"iter_ones\(\)", 4), ("compute_pawn_moves", r"PROMOTION_TYPES", 5), ("compute_pawn_moves", r"OFFSETS", 3)]),
@@ -351,9 +355,15 @@ PROPS["C01"] = dict(
           "equal the squares the rules name", functions=["common::*"]),
         K("c01", "c01_k4_try_as_legal_move", desc="K4 try_as_legal_move: Some(mv, next) iff the mover's king is not attacked in "
           "next == by_performing_move(state, mv); fully symbolic position and move", functions=["PseudoLegalMove::try_as_legal_move"], timeout=2400),
-        K("c01p", "c01_perft_counts_the_legal_tree", kind="bounded", bound="depth <= 2, <= 2 legal moves per node (every shape of such a tree)",
+        K("c01p", "c01_perft_depth_one", kind="bounded", bound="depth 1, <= 2 legal moves", desc="Searcher::perft_recursive, leaf-counting branch: with one "
+          "buffer the count is the number of legal moves (generator replaced by its contract)", functions=["Searcher::perft_recursive"], timeout=2400),
+        K("c01p", "c01_perft_chain", kind="bounded", bound="depth 2, <= 1 legal move per node", desc="Searcher::perft_recursive, recursive branch: the count is "
+          "the number of leaves and the callback receives each root move's subtree size", functions=["Searcher::perft_recursive"], timeout=2400,
+          unwindset_rules=[("perft_recursive", r"legal_moves\.iter\(\)", 2)]),
+        K("c01p", "c01_perft_counts_the_legal_tree", kind="bounded", bound="depth 2, <= 2 legal moves per node (every shape of such a tree)",
           desc="Searcher::perft_recursive with the generator replaced by its contract: the count is the number of leaves of the legal-move tree at "
-          "that depth, and the per-root-move callback receives each subtree's size", functions=["Searcher::perft_recursive"], timeout=5400, tier="thorough", heavy=True, mem_gb=40),
+          "that depth, and the per-root-move callback receives each subtree's size", functions=["Searcher::perft_recursive"], timeout=3000, heavy=True,
+          unwindset_rules=[("perft_recursive", r"legal_moves\.iter\(\)", 3)]),
         K("c01", "c01_k0_pseudo_legal_runs_all_six_generators", desc="K0 compute_psuedo_legal_moves_into clears the list and runs the pawn, knight, "
           "king, bishop, rook and queen generators exactly once each on the same position, each appending to what the others produced",
           functions=["MoveGenerator::compute_psuedo_legal_moves_into"], timeout=1500),
